@@ -242,11 +242,13 @@ mutant("c20_partial_cache", "C20", "embedded data filled incrementally into a di
     (BASE, "class EmbeddedRegistry(AbstractRegistry):", "_EMBEDDED_CACHE = {}\n\n\nclass EmbeddedRegistry(AbstractRegistry):")])
 mutant("c20_ext_prefix_match", "C20", "files matched by extension prefix (*.gb*)", [
     (BASE, '        return ["*.{}".format(extension) for extension in self._extensions]', '        return ["*.{}*".format(extension) for extension in self._extensions]')])
-mutant("c20_lookup_first_listing", "C20", "directory lookups served from a listing cached at first use", [
+mutant("c20_lookup_first_listing", "C20", "directory lookups served from a listing cached incrementally at first use (kept half-filled after an I/O error)", [
     (BASE, '''        for f in self.fs.filterdir("/", files=self._files, exclude_dirs=["*"]):
             name, _ = splitext(f.name)
             if name == item:''', '''        if not hasattr(self, "_listing"):
-            self._listing = list(self.fs.filterdir("/", files=self._files, exclude_dirs=["*"]))
+            self._listing = []
+            for f in self.fs.filterdir("/", files=self._files, exclude_dirs=["*"]):
+                self._listing.append(f)
         for f in self._listing:
             name, _ = splitext(f.name)
             if name == item:''')])
